@@ -67,6 +67,77 @@ class ValTrue(Cut):
         return _bool_targets(labels3, self.truth)
 
 
+def pred_tree_has(v, test, depth=0):
+    """does the predicate tree of a switch operand contain a comparison (name, args) satisfying test?"""
+    if depth > 8 or not hasattr(v, "atoms"):
+        return False
+    for a in v.atoms:
+        if isinstance(a[0], tuple) and a[0][0] == "pred":
+            if test(a[0][1], a[0][2:]):
+                return True
+            for x in a[0][2:]:
+                if pred_tree_has(x, test, depth + 1):
+                    return True
+    for k, f in v.fields.items():
+        if not k.startswith("#v:") and pred_tree_has(f, test, depth + 1):
+            return True
+    return False
+
+
+class DecisionOn(Cut):
+    """A bool decision whose computation contains a comparison satisfying `test(name, args)`: remove the edge taken when the decision
+    is `truth`.  Used in both polarities by cut_by_any (only the accepting polarity can block the protected effect)."""
+
+    def __init__(self, name, test, truth):
+        self.name = "%s [%s edge]" % (name, truth)
+        self.test = test
+        self.truth = truth
+
+    def remove(self, I, frame, pname, pargs, positive, labels3, opv):
+        if pname == "discr" or not pred_tree_has(opv, self.test):
+            return None
+        return _bool_targets(labels3, self.truth)
+
+
+def decision(name, test):
+    return [DecisionOn(name, test, True), DecisionOn(name, test, False)]
+
+
+def helper_candidates(A, test, contract_prefix):
+    """first-party callees (any name) inside which a decision satisfying `test` is taken: their `?` / bool result is a candidate guard"""
+    out, seen = [], set()
+    marks = [x for x in A.events if x.kind in ("switch", "invoke") and x.vals and pred_tree_has(x.vals[0], test)]
+    for x in marks:
+        for fid in x.chain():
+            base_fid = fid.split("::{closure")[0]
+            if base_fid in seen or not base_fid.startswith(contract_prefix) or base_fid.endswith("::execute") or base_fid.endswith("::reply"):
+                continue
+            seen.add(base_fid)
+            pat = re.escape(base_fid.split("::", 1)[1]) + "$"
+            out += [TryOk(pat), CallTrue(pat, "helper %s says yes" % base_fid.rsplit("::", 1)[-1], True), CallTrue(pat, "helper %s says no" % base_fid.rsplit("::", 1)[-1], False)]
+    return out
+
+
+def cut_by_any(chk, W, rule, contract, vp, label, cands, which="execute", effects=None, extra=()):
+    """Obligation: at least one of the candidate guards (different spellings / polarities of the same check) is found on a path of the
+    handler and, with its accept edge removed, no protected effect is reachable.  Name-free alternative to a TryOk on a named helper."""
+    inst = "%s/%s [%s]" % (contract, "/".join(vp or ()), label)
+    tried = []
+    for c in cands:
+        pol = CutPolicy([c] + list(extra))
+        A = W.run(contract, which, vp, pol)
+        if c.name not in pol.hits:
+            continue
+        eff = effects(A) if effects else A.effects()
+        tried.append((c.name, len(eff)))
+        if not eff:
+            chk.ok(rule, inst, "no protected effect reachable once the accept edge of `%s` is removed (%d site(s))" % (c.name, len(pol.hits[c.name])))
+            return True
+    chk.fail(rule, inst, "no guard of this kind cuts the protected effect (candidates found on a path: %s)" % (tried or "none"),
+             "entry %s" % W.entry(contract, which).id if hasattr(W.entry(contract, which), "id") else "")
+    return False
+
+
 def sends_to(A, recipients):
     """BankMsg::Send aggregates whose recipient origins are within `recipients`"""
     out = []
